@@ -1,4 +1,5 @@
 import PortusModel.Props.C19
+import PortusModel.Props.C18Own
 #print axioms Portus.C19.fifo_invariant
 #print axioms Portus.C19.per_sender_prefix
 #print axioms Portus.C19.drained_all_once
@@ -9,3 +10,4 @@ import PortusModel.Props.C19
 #print axioms Portus.C19.recv_never_panics
 #print axioms Portus.C19.sentOf_opsOf_filter
 #print axioms Portus.C19.model_accepted
+#print axioms Portus.C18.dead_handle_cannot_send
